@@ -151,13 +151,20 @@ def conditions(tier):
         for m in (1, 2) if (not q or pl == "assert") else (2,):
             conds.append(_cond(f"gi_int_{pl}_m{m}", "[]", pl, [f"n{i}" for i in range(m)], [f"n{i}" for i in range(m)], "getitem"))
     conds.append(_cond("gi_shapes_assert", "[]", "assert", ["[n0, n1]", "P(a=n2)", "Weird(5)"], ["n0", "n1", "n2"], "getitem"))
+    # two values of one type in one session, only one of them with a repr that is Python code (symbolic which)
+    for name, op, pl, srcs in (("in_loop", "in", "loop", ["Maybe(B0, 1)", "Maybe(B1, 2)"]), ("gi_assert", "[]", "assert", ["Maybe(B0, 1)", "Maybe(B1, 2)"]),
+                               ("in_assert3", "in", "assert", ["Maybe(B0, 1)", "Maybe(B1, 2)", "[Maybe(B2, 3)]"]), ("eq_nested", "==", "assert", ["[Maybe(B0, 1), {1: Maybe(B1, 2)}, (Maybe(B2, 3),)]"])):
+        body = f"return create_case({op!r}, {pl!r}, {srcs!r}, {{'B0': True if b0 else False, 'B1': True if b1 else False, 'B2': True if b2 else False}})"
+        fn = mkfn(f"repr_validity_{name}", [("b0", "bool"), ("b1", "bool"), ("b2", "bool")], body, GLB)
+        conds.append(Cond(f"repr_validity_{name}", fn, timeout=600, group="hasrepr",
+                          bounds=f"operation {op}, placement {pl}, observed {srcs}: values of one type whose repr is Python code or not (symbolic per value)"))
     conds.append(_cond("eq_list2_assert", "==", "assert", ["[n0, n1]"], ["n0", "n1"], "eq", twin=True))
     conds.append(_cond("gi_int_nested_m2", "[]", "nested", ["n0", "n1"], ["n0", "n1"], "getitem", twin=True))
     return conds
 
 
 META = {
-    "bounds": {"quick": "28 value shapes (incl. pydantic models with Any-typed fields, one filled in place; a tuple holding a list that keeps growing) up to depth 2 / width 3 (lists, tuples 0/1/2, dicts, dataclass with default and default_factory, attrs, namedtuple, defaultdict, Enum, Flag, class, None, bool, str, bytes, float, set, frozenset, HasRepr) with symbolic int leaves; 5 operations; placements assert / helper argument / module level / loop; <=3 observations",
+    "bounds": {"quick": "4 families with values of one type whose repr is valid Python for some values only; 28 value shapes (incl. pydantic models with Any-typed fields, one filled in place; a tuple holding a list that keeps growing) up to depth 2 / width 3 (lists, tuples 0/1/2, dicts, dataclass with default and default_factory, attrs, namedtuple, defaultdict, Enum, Flag, class, None, bool, str, bytes, float, set, frozenset, HasRepr) with symbolic int leaves; 5 operations; placements assert / helper argument / module level / loop; <=3 observations",
                "thorough": "all shapes x all placements; <=3 observations everywhere"},
     "outside": "unbounded size/nesting; str/bytes leaves as symbolic values (C12); externals (C13); pydantic models only with Any-typed fields (typed fields are validated in C code, which realises symbolic ints); layouts other than the templates'",
     "assumptions": ["stub: repr of a symbolic int leaf is a name token; concrete replays use real repr",
